@@ -33,7 +33,7 @@ SPEC = dict(
     assumptions=[
         'only executions produced by this run are judged (runtime monitoring, not proof)',
         'gcc 12 / x86-64 LP64 little-endian, A_SIZE_POINTER=8; library rebuilt from /repo working tree with -fsanitize=address,undefined',
-        'a_real = double (A_SIZE_REAL=8), SSE2 arithmetic, -ffp-contract=off (no FMA contraction): the exact regime relies on IEEE-754 '
+        'full harness: a_real = double (A_SIZE_REAL=8), SSE2 arithmetic, -ffp-contract=off (no FMA contraction): the exact regime relies on IEEE-754 '
         'binary64 operations being exact whenever the result is representable',
         'index convention read from src/tf.c and confirmed on the data of test/tf.h (output settles at the plotted set-point 1.0): '
         'num[0] multiplies the current input, den[0] the previous output; tf.h itself does not spell the equation out',
@@ -54,8 +54,9 @@ SPEC = dict(
                'bound is used. Memory discipline of the caller-provided delay lines is watched by ASan red zones on exact-size blocks and by '
                'canary cells. All 81 order pairs are enumerated; histories, coefficients and inputs are sampled.',
     level_note='trusted: libquadmath binary128 arithmetic and the harness reference recurrence; histories are at most 500 samples (exact regime: '
-               'as long as exactness is guaranteed, 1..500), orders at most 8; coefficients/inputs are sampled, not enumerated; float build '
-               '(A_SIZE_REAL=4) and the C++ operator() wrappers are not executed',
+               'as long as exactness is guaranteed, 1..500), orders at most 8; coefficients/inputs are sampled, not enumerated; the float (A_SIZE_REAL=4) and long double (16) builds are run through the compact '
+               'companion h_filter_w.c only (init/zero/set on garbage-filled exact-size delay lines, one-step binary128 oracle, RC filters; counters w-*); '
+               'the C++ operator() wrappers are not executed',
     technique='exact-arithmetic reference recurrence (bitwise) + binary128 one-step oracle + LTI identities + canaries under ASan+UBSan',
     workers={'quick': 12, 'thorough': 18},
 )
